@@ -72,7 +72,7 @@ def main(ctx):
         recipe.account(ctx, 'shared-wide', 'Shared', tla(wide), fw.result())
 
     # real processes: locked increments, visibility; type sweep (data clause)
-    rc, data, log = sandbox.run_driver('harness.shared_main', [ctx.tier], timeout=600)
+    rc, data, log = sandbox.run_driver_patient('shared-memory', 'harness.shared_main', [ctx.tier], timeout=600)
     if rc != 0 or data is None:
         sandbox.driver_failed('shared-memory', rc, log)
     obs = [c['obs'] for c in data['counters']]
